@@ -318,3 +318,46 @@ Proof.
   rewrite (tob_ofb32 (Z.land 2147483647 (bits_of_b32 a))) by (rewrite Z.land_comm; apply land_range; lia).
   rewrite Z.lor_comm. rewrite (Z.land_comm 2147483647). reflexivity.
 Qed.
+
+(* ---- SSE2 signum: select(is_nan_mask, self, (self & -1.0) | 1.0) *)
+Section Lane6.
+Variable O : Ops.
+Definition signum_lane (x : F32 O) : F32 O :=
+  let p := f32_pred O FIsNan x in
+  let m := f32_of_bits O (if orb p p then 4294967295 else 0) in
+  let r := f32_2 O FOr (f32_2 O FAnd x (f32_of_bits O 3212836864)) (f32_of_bits O 1065353216) in
+  f32_2 O FOr (f32_2 O FAndNot m r) (f32_2 O FAnd x m).
+End Lane6.
+Lemma sign_bits_id t : Z.lor (Z.land t 3212836864) 1065353216 = Z.lor 1065353216 (Z.land t 2147483648).
+Proof.
+  change 3212836864 with (Z.lor 2147483648 1065353216). apply Z.bits_inj'. intros n Hn.
+  rewrite !Z.lor_spec, !Z.land_spec, !Z.lor_spec.
+  destruct (Z.testbit t n), (Z.testbit 2147483648 n), (Z.testbit 1065353216 n); reflexivity.
+Qed.
+Lemma feq_refl : forall x : binary32, feq x x.
+Proof.
+  intros x. destruct (is_nan 24 128 x) eqn:N; [left; split; exact N|right; repeat split; try exact N].
+  destruct x as [s|s|s pl H|s m e H]; try discriminate N.
+  - destruct s; reflexivity.
+  - destruct s; reflexivity.
+  - unfold b32_compare. rewrite Bcompare_correct by reflexivity. rewrite Rcompare_Eq; reflexivity.
+Qed.
+Theorem signum_lane_correct : forall v : binary32, feq (signum_lane OI v) (f32_1 OI FSignum v).
+Proof.
+  intros v. unfold signum_lane, OI, IEEEr, IEEE. cbn [f32_2 f32_1 f32_pred f32_of_bits f32_2s f32_1s].
+  rewrite (tob_ofb32 3212836864) by lia. rewrite (tob_ofb32 1065353216) by lia.
+  pose proof (tob_range' v) as Hv.
+  assert (Rr : 0 <= Z.lor (Z.land (bits_of_b32 v) 3212836864) 1065353216 < 4294967296) by (apply lor_range; [apply land_range; lia|lia]).
+  rewrite (tob_ofb32 (Z.land (bits_of_b32 v) 3212836864)) by (apply land_range; lia).
+  rewrite (tob_ofb32 _ Rr).
+  change (pred32 FIsNan v) with (is_nan 24 128 v).
+  destruct (is_nan 24 128 v) eqn:N.
+  - (* NaN: the mask is all ones, the input is returned *)
+    cbn [orb]. rewrite (tob_ofb32 4294967295) by lia. change (Z.lxor 4294967295 4294967295) with 0. rewrite Z.land_0_l.
+    rewrite (tob_ofb32 0) by lia. rewrite (land_ones32 _ Hv). rewrite (tob_ofb32 _ Hv). rewrite Z.lor_0_l.
+    rewrite ofb32_ofb by exact Hv. unfold tob in *. fold (tob v). rewrite ofb_tob. left. split; [exact N|reflexivity].
+  - cbn [orb]. rewrite (tob_ofb32 0) by lia. change (Z.lxor 0 4294967295) with 4294967295. rewrite Z.land_0_r.
+    rewrite (tob_ofb32 0) by lia. rewrite Z.lor_0_r. rewrite Z.land_comm. rewrite (land_ones32 _ Rr).
+    unfold copysign32, one32. rewrite (tob_ofb32 1065353216) by lia. change (Z.land 1065353216 2147483647) with 1065353216.
+    rewrite (tob_ofb32 _ Rr). rewrite sign_bits_id. apply feq_refl.
+Qed.
